@@ -883,7 +883,7 @@ namespace awkward {
                                int64_t depth) const {
     int64_t posaxis = axis_wrap_if_negative(axis);
     if (posaxis == depth) {
-      return rpad_axis0(target, false);
+      return rpad_axis0(target, true);
     }
     else if (posaxis == depth + 1) {
       return content_.get()->rpad_and_clip(target, posaxis, depth);
